@@ -354,6 +354,8 @@ func checkC10(p *Prog, r *Report) {
 	checkC10Sink(p, r, rSink, known)
 	checkC10Scratch(p, r, r.Rule("notice-text-owned", "the text of a notice is built in memory of the call which sends it, never in a scratch buffer shared between calls"))
 
+	checkC10Undecoded(p, r, r.Rule("undecoded", "no argument of a notice in hsrv has gone through a percent, quote or HTML decoder"), known)
+
 	/* vet printf in-process. */
 	runVetPrintf(p, r, rVet, known)
 }
@@ -650,4 +652,87 @@ func heldSiblingMutex(fn *ssa.Function, fa *ssa.FieldAddr, at ssa.Instruction) b
 		}
 	}
 	return false
+}
+
+// reachesThroughCalls: like operandsReach, also into the results of module
+// functions (two levels) and the elements of a variadic argument list.
+func reachesThroughCalls(v ssa.Value, pred func(ssa.Value) bool, depth int) bool {
+	return operandsReach(v, func(x ssa.Value) bool {
+		if pred(x) {
+			return true
+		}
+		switch t := x.(type) {
+		case *ssa.Slice:
+			if _, isAl := t.X.(*ssa.Alloc); isAl {
+				for _, e := range appendedElems(t) {
+					if e != ssa.Value(t) && reachesThroughCalls(e, pred, depth) {
+						return true
+					}
+				}
+			}
+		case *ssa.Call:
+			callee := t.Common().StaticCallee()
+			if depth >= 2 || nil == callee || nil == callee.Blocks || nil == callee.Pkg || !strings.HasPrefix(callee.Pkg.Pkg.Path(), ModPath) {
+				return false
+			}
+			hit := false
+			eachInstr(callee, func(i ssa.Instruction) {
+				if ret, ok := i.(*ssa.Return); ok && !hit {
+					for _, rv := range ret.Results {
+						if reachesThroughCalls(rv, pred, depth+1) {
+							hit = true
+							return
+						}
+					}
+				}
+			})
+			return hit
+		}
+		return false
+	})
+}
+
+// checkC10Undecoded: what a notice shows of the client's text is that text,
+// not a decoded form of it: percent-decoding (or unquoting, or HTML
+// unescaping) a header, path or parameter on its way into a notice shows
+// "a b" where the client sent "a%20b".
+func checkC10Undecoded(p *Prog, r *Report, ru *Rule, known map[*ssa.Function]printfInfo) {
+	decoders := map[string]bool{"net/url.QueryUnescape": true, "net/url.PathUnescape": true, "html.UnescapeString": true, "strconv.Unquote": true}
+	n := 0
+	for _, fn := range p.Funcs() {
+		if nil == fn.Pkg || !strings.HasSuffix(fn.Pkg.Pkg.Path(), "/"+hsrvPkg) {
+			continue
+		}
+		eachInstr(fn, func(i ssa.Instruction) {
+			c := callCommon(i)
+			if nil == c {
+				return
+			}
+			idx, cname := printfIdxOf(p, known, c)
+			if idx < 0 || idx >= len(c.Args) || nil == c.StaticCallee() || nil == c.StaticCallee().Pkg || !strings.HasPrefix(c.StaticCallee().Pkg.Pkg.Path(), ModPath) {
+				return
+			}
+			n++
+			var dec ssa.Value
+			for _, a := range c.Args[idx+1:] {
+				reachesThroughCalls(a, func(x ssa.Value) bool {
+					if cl, ok := x.(*ssa.Call); ok && decoders[calleeName(cl.Common())] {
+						dec = cl
+						return true
+					}
+					return false
+				}, 0)
+			}
+			construct := fmt.Sprintf("%s→%s@%s", fnName(fn), cname, p.Pos(posOf(i)))
+			if nil != dec {
+				ru.Bad(fnName(fn)+"→"+cname+":undecoded", posOf(i), "an argument of this notice went through %s (%s): the operator is shown a decoded form, not what the client sent character for character", calleeName(dec.(*ssa.Call).Common()), p.Pos(posOf(dec.(ssa.Instruction))))
+			}
+			_ = construct
+		})
+	}
+	if n < 5 {
+		ru.Unproven("hsrv:notices", token.NoPos, "%d notice call sites in hsrv, at least 5 expected", n)
+	} else {
+		ru.OK("hsrv:notices-undecoded", token.NoPos, "%d notice call sites in hsrv; none takes an argument which went through a percent/quote/HTML decoder", n)
+	}
 }
